@@ -362,7 +362,82 @@ def _run_e2d(prog, rep, fns, absorb_table, rule="E2.d", label=""):
                 continue
             rep.violation(rule, key, sp_str(t["sp"]),
                           "failure of %s can be dropped: %s" % (short, "; ".join("%s %s" % (c.kind, c.detail) for c in bad)))
+    n += _closure_results(prog, rep, fns, rule)
     return n, per_kind
+
+
+# what happens to the Results a closure *returns* is decided by whoever runs the closure: a std adaptor keeps the errors only if the
+# stream of Results ends in an error-preserving consumer
+_STREAM_PASS = r"std::iter::Iterator::(rev|enumerate|peekable|by_ref|inspect|chain|zip|fuse|map)$|IntoIterator::into_iter$"
+_STREAM_DROP = r"std::iter::Iterator::(last|count|for_each|flatten|flat_map|filter_map|filter|find|find_map|any|all|nth|skip|skip_while|take|take_while|step_by|min\w*|max\w*|position|fold|reduce|unzip|partition)$"
+
+
+def _closure_results(prog, rep, fns, rule):
+    n = 0
+    for cl in fns:
+        if cl.body is None or cl.kind != "closure" or not is_fallible_type(cl, cl.body.locals[0]["ty"]):
+            continue
+        par = prog.fns.get(cl.parent)
+        if par is None or par.body is None:
+            continue
+        pbody = par.body
+        takers = []
+        for b, t in pbody.calls():
+            for a in t["args"]:
+                if a.get("k") in ("move", "copy") and not a["p"].get("p"):
+                    ty = par.ty(pbody.locals[a["p"]["l"]]["ty"])
+                    if ty.k == "ref":
+                        ty = par.ty(ty.inner)
+                    if ty.k == "closure" and ty.path == cl.id:
+                        takers.append((b, t))
+        ptr = None
+        for b, t in takers:
+            n += 1
+            cd = (callee_fn(t) or {}).get("def", "<indirect>")
+            key = "%s :: results returned to %s" % (cl.id, re.sub(r"<[^<>]*>", "", cd).replace("::::", "::"))
+            if cd.startswith(("tsg::", "crate::")) or is_fallible_type(par, t["dty"]):
+                rep.ok(rule, key, sp_str(t["sp"]), "the caller of the closure is audited itself / returns a Result that is audited")
+                continue
+            ptr = ptr or Tracer(pbody)
+            if is_callee(t, _STREAM_DROP):
+                rep.violation(rule, key, sp_str(t["sp"]), "errors returned by the closure are lost: %s drops or flattens the Results it is given" % cd.rsplit("::", 1)[-1])
+                continue
+            verdict, detail = _stream_fate(par, pbody, ptr, b, t, 0)
+            rep.check(verdict, rule, key, sp_str(t["sp"]), detail, "errors returned by the closure are lost: %s" % detail)
+    return n
+
+
+def _stream_fate(par, body, tr, b0, t0, depth):
+    """follow the value produced by adaptor call (b0, t0) forward to its consumers"""
+    if depth > 6:
+        return False, "adaptor chain too long to follow"
+    consumers = []
+    for b, t in body.calls():
+        if b == b0 or not t["args"]:
+            continue
+        e = strip(tr.operand(t["args"][0]))
+        while e[0] in ("ref", "deref") and len(e) > 1 and isinstance(e[-1], tuple):
+            e = strip(e[-1])
+        if e[0] == "call" and len(e) > 4 and e[4] == b0:
+            consumers.append((b, t))
+    if not consumers:
+        return False, "the stream of results built by %s is never consumed" % callee_fn(t0)["def"].rsplit("::", 1)[-1]
+    for b, t in consumers:
+        cd = (callee_fn(t) or {}).get("def", "<indirect>")
+        short = cd.rsplit("::", 1)[-1]
+        if is_callee(t, _STREAM_DROP):
+            return False, "%s drops or flattens the Results of the closure" % short
+        if is_fallible_type(par, t["dty"]):
+            continue                      # collect::<Result<..>>, try_for_each, try_fold, sum, transpose … : audited as a fallible call
+        if is_callee(t, _STREAM_PASS):
+            ok, d = _stream_fate(par, body, tr, b, t, depth + 1)
+            if not ok:
+                return ok, d
+            continue
+        if is_callee(t, r"std::iter::Iterator::next$"):
+            continue                      # explicit loop over the results: each item is matched by the loop body
+        return False, "%s consumes the Results of the closure and is not known to keep errors" % short
+    return True, "every consumer of the closure's results keeps errors (%s)" % ", ".join(sorted({(callee_fn(t) or {}).get("def", "?").rsplit("::", 1)[-1] for _b, t in consumers}))
 
 
 # =======================================================================================
@@ -496,7 +571,8 @@ def _run_e2c(prog, rep):
                 if c.kind not in ("TRY", "RETURN") and not (c.kind == "MATCH-ERR" and c.detail.startswith("SAME-ERROR")):
                     bad.append("%s %s" % (c.kind, c.detail))
                 for a in c.chain:
-                    if a != "with_context":
+                    # Result::map / and_then act on the Ok value only: an Err(Cancelled) passes through them as it is
+                    if a not in ("with_context", "map", "and_then"):
                         bad.append("adapter %s may rewrite Cancelled" % a)
             # stops: between this call and the `?` that propagates its result no other may-cancel call runs
             if not bad:
@@ -542,6 +618,9 @@ def _run_e2c(prog, rep):
                 rep.violation("E2.c", key, sp_str(t["sp"]), "a result that may be Cancelled is not passed through unchanged: %s" % "; ".join(sorted(set(bad))))
             else:
                 rep.ok("E2.c", key, sp_str(t["sp"]), "propagated by ?/return%s" % (" through with_context" if any(c.chain for c in cons) else ""))
+    # (ii') a closure that may return Cancelled: whoever runs it must keep its errors (map+collect::<Result>, try_for_each …; not
+    # flat_map / filter_map / last / for_each, which drop them and let the execution carry on)
+    n_sites += _closure_results(prog, rep, [f for f in sorted(prog.fns.values(), key=lambda x: x.id) if f.kind == "closure" and f.id in canc and f.crate.prefix == "tsg"], "E2.c")
     # (iii)
     wc = [f for f in prog.fns.values() if f.name == "with_context" and f.trait == "tsg::execution::error::ResultWithExecutionError"]
     ok3 = False
